@@ -880,3 +880,101 @@ _run_n5d = run
 def run(ctx, rep):
     _run_n5d(ctx, rep)
     fold_length_shortcut(ctx, rep)
+
+
+# ---------------------------------------------------------------------------------------------
+# N5e  with Unicode folding the requested name is folded as one *stream* (`name.chars().flat_map(fold)`): folding a single
+#      character of it and comparing that with the fold of a single stored character pairs the two names position by
+#      position, which is wrong as soon as one fold is longer than the other (`ß` / `SS`)
+
+def fold_per_character(ctx, rep):
+    facts = ctx.facts
+    fold = facts.fns.get('fatfs::dir_entry::char_to_uppercase')
+    if fold is None or not any((t.get('callee') or '').endswith('::to_uppercase') for b, t in fold.calls()):
+        return
+    fn = facts.fns.get('fatfs::dir_entry::DirEntry::eq_name_lfn')
+    if fn is None:
+        return
+    defs = _single_defs(fn)
+
+    def from_name(l, depth=0):
+        """does the local hold (an iterator over / a reference to) the requested name (parameter 2)?"""
+        if depth > 20:
+            return False
+        if l == 2:
+            return True
+        d = defs.get(l)
+        if d is None:
+            return False
+        if d[0] == 'call':
+            c = d[1].get('callee') or ''
+            if c.endswith('Iterator::next'):
+                return False
+            p = op_place(d[1]['args'][0]) if d[1]['args'] else None
+            return p is not None and from_name(p['l'], depth + 1)
+        rv = d[1]
+        if rv['k'] in ('use', 'cast'):
+            p = op_place(rv['a'])
+            return p is not None and from_name(p['l'], depth + 1)
+        if rv['k'] in ('ref', 'rawptr'):
+            return from_name(rv['p']['l'], depth + 1)
+        return False
+
+    def element_of_name(l, depth=0):
+        """is the local a character handed out by `next()` on an iterator over the requested name?"""
+        if depth > 12:
+            return False
+        d = defs.get(l)
+        if d is None:
+            return False
+        if d[0] == 'stmt' and d[1]['k'] in ('use', 'cast'):
+            p = op_place(d[1]['a'])
+            if p is None:
+                return False
+            if p['p']:
+                src = defs.get(p['l'])
+                # a match guard sees its bindings by reference: `*(&(r as Some).0)`
+                if src is not None and src[0] == 'stmt' and src[1]['k'] == 'ref' and all('deref' in e for e in p['p']):
+                    p = src[1]['p']
+                    if not p['p']:
+                        return element_of_name(p['l'], depth + 1)
+                    src = defs.get(p['l'])
+                if src is not None and src[0] == 'call' and (src[1].get('callee') or '').endswith('Iterator::next') and src[1]['args']:
+                    q = op_place(src[1]['args'][0])
+                    return q is not None and from_name(q['l'])
+                # a tuple `(decode_result, other_iter.next())` matched as a whole
+                if src is not None and src[0] == 'stmt' and src[1]['k'] == 'agg' and src[1].get('ak') == 'tuple':
+                    idx = [e.get('f') for e in p['p'] if 'f' in e][:1]
+                    if idx and idx[0] < len(src[1]['ops']):
+                        q = op_place(src[1]['ops'][idx[0]])
+                        if q is not None and not q['p']:
+                            s2 = defs.get(q['l'])
+                            if s2 is not None and s2[0] == 'call' and (s2[1].get('callee') or '').endswith('Iterator::next') and s2[1]['args']:
+                                q2 = op_place(s2[1]['args'][0])
+                                return q2 is not None and from_name(q2['l'])
+                return False
+            return element_of_name(p['l'], depth + 1)
+        return False
+
+    bad = None
+    n = 0
+    for b, t in fn.calls():
+        if (t.get('callee') or '').endswith('dir_entry::char_to_uppercase') and t['args']:
+            n += 1
+            p = op_place(t['args'][0])
+            if p is not None and not p['p'] and element_of_name(p['l']):
+                bad = t
+    rep.oblige('N5e', fn.name, ok=bad is None, nontrivial=True, sample={'fn': fn.name, 'direct_fold_calls': n})
+    if bad is not None:
+        rep.violation('N5e', vkey('N5e', fn.name, 'per-character-fold', ''), fn.loc(bad['span']),
+                      '%s folds one character of the requested name at a time (`%s`) and so compares the names position by position: '
+                      'a character whose upper-case form is longer (`ß` -> `SS`) never matches its expanded spelling' %
+                      (fn.name, bad['span']['snip'][:60]))
+
+
+_run_n5e = run
+
+
+def run(ctx, rep):
+    _run_n5e(ctx, rep)
+    fold_per_character(ctx, rep)
